@@ -2,6 +2,7 @@
 from __future__ import annotations
 
 from .core import outcome, octs, rxbuf, decoded, scramble, owned, enum_arg
+from .probe import fresh
 from .ops_ecss import tm_proj, mk_tc
 from .probe import decode_other
 
@@ -46,7 +47,7 @@ def op_reqid_rt(a):
     def run():
         q = mk_req(a["r"], a.get("via", "ctor"))
         raw = owned(q.pack)
-        d = RequestId.unpack(rxbuf(raw, a["sfx"]))
+        d = fresh(lambda: RequestId.unpack(rxbuf(raw, a["sfx"])))
         scramble()
         return {"octets": octs(raw), "u32": _u32(q.as_u32()), "dec": proj_req(d), "du32": _u32(d.as_u32()),
                 "eq": bool(d == q) and bool(q == d), "hashok": hash(d) == hash(q), "repack": octs(d.pack())}
@@ -76,7 +77,7 @@ def op_reqid_unpack(a):
     from spacepackets.ecss.req_id import RequestId
 
     def run():
-        d = decoded(lambda: RequestId.unpack(bytes(a["octets"])))
+        d = decoded(lambda: fresh(lambda: RequestId.unpack(bytes(a["octets"]))))
         return {"r": proj_req(d), "repack": octs(d.pack()), "u32": _u32(d.as_u32())}
     return outcome(run)
 
@@ -169,9 +170,9 @@ def op_srv1_rt(a):
         up = unpack_params(len(p["stamp"]), sw, ew)
         buf = rxbuf(raw, a["sfx"])
         if a.get("via") == "from_tm":
-            d = S.Service1Tm.from_tm(PusTm.unpack(buf, len(p["stamp"])), up)
+            d = fresh(lambda: S.Service1Tm.from_tm(PusTm.unpack(buf, len(p["stamp"])), up))
         else:
-            d = S.Service1Tm.unpack(buf, up)
+            d = fresh(lambda: S.Service1Tm.unpack(buf, up))
         decode_other("srv1", lambda b: S.Service1Tm.unpack(b, unpack_params(7, 1, 1)))
         ec = d.error_code
         if p["fail"] and (ec is None or proj_enum(ec, "code")["code"] != proj_fail(d.failure_notice)["code"]):
@@ -186,7 +187,7 @@ def op_srv1_unpack(a):
     from spacepackets.ecss import pus_1_verification as S
 
     def run():
-        d = decoded(lambda: S.Service1Tm.unpack(bytes(a["octets"]), unpack_params(a["tslen"], a["stepw"], a["errw"])))
+        d = decoded(lambda: fresh(lambda: S.Service1Tm.unpack(bytes(a["octets"]), unpack_params(a["tslen"], a["stepw"], a["errw"]))))
         return {"v": proj_srv1(d), "repack": octs(d.pack())}
     return outcome(run)
 
